@@ -3,7 +3,7 @@
    serve_v2_equals_v1. *)
 From DnsV Require Import Base.Bytes Model.Store Model.LookupV1 Model.LookupV2 Model.Serve Spec.Answer Spec.Rows.
 From DnsV Require Import Proofs.Answer Proofs.Compile Proofs.ZoneCut Proofs.Refused Proofs.NxDomain Proofs.SoaAuth Proofs.AnswerItems Proofs.Referral Proofs.Glue Proofs.Reads.
-From DnsV Require Import Proofs.RevOrder Proofs.V2Store Proofs.V2Serve.
+From DnsV Require Import Proofs.RevOrder Proofs.V2Store Proofs.V2Serve Proofs.CdbRdb1.
 From Coq Require Import Permutation.
 Open Scope N_scope.
 
@@ -140,3 +140,14 @@ Example v2_example :
               [IRR (mkRR [1; 65; 1; 98; 1; 122; 0] 16 1 60 [1; 119])] [] [] None) /\
   serve RDB1 (store_v1 recs) q (LocOk [97; 98]) None 1 = serve RDB2 (store_v2 recs) q (LocOk [97; 98]) None 1.
 Proof. vm_compute. repeat split; reflexivity. Qed.
+
+(* all three backends: CDB, RocksDB v1 keys, RocksDB v2 keys *)
+Theorem three_backends : forall recs L, wf_recs recs -> Forall wf_ns_rdata recs -> length L = 2%nat -> wf_view L recs = true ->
+  forall q n ecs max, wf_name n -> nlen (pack n) <= 255 -> lower_bytes (q_name q) = pack n ->
+  serve RDB2 (store_v2 recs) q (LocOk L) ecs max = serve CDB (store_v1 recs) q (LocOk L) ecs max /\
+  serve RDB1 (store_v1 recs) q (LocOk L) ecs max = serve CDB (store_v1 recs) q (LocOk L) ecs max.
+Proof.
+  intros recs L W WN HL V q n ecs max Hn Hlen Hq.
+  rewrite (v2_equals_v1 recs L W HL V q n ecs max Hn Hlen Hq), (serve_cdb_equals_rdb1 recs q (LocOk L) ecs max W WN).
+  split; reflexivity.
+Qed.
